@@ -2,6 +2,9 @@
 ; Written from the RFC texts / property statements, not from the code.
 ; Loaded after the sequence prelude (sort BSeq, len, at, cat, sub, view, ...).
 
+; Definitions listed here are hidden (declared, not defined) unless a contract says "reveal <name>":
+; @opaque hotp otpcode b32ok b32key
+
 ; ---- integers -------------------------------------------------------------
 (define-fun hlen ((a Int)) Int (ite (= a 0) 20 (ite (= a 1) 32 64)))
 (define-fun dig ((v Int) (d Int) (k Int)) Int (+ 48 (mod (div v (pow10 (- (- d 1) k))) 10)))
@@ -40,10 +43,9 @@
 (declare-fun b32nopad (BSeq) BSeq)
 (declare-fun b32std (BSeq) BSeq)
 (declare-fun dec (Int) BSeq)
-(declare-fun padeq () BSeq)
-(assert (and (= (len padeq) 1) (= (at padeq 0) 61)))
+; str!x3d is the string literal "=" (declared by the engine from its bytes)
 ; repad8(x): x followed by (8 - len(x) mod 8) mod 8 characters '='
-(define-fun repad8 ((x BSeq)) BSeq (ite (= (mod (len x) 8) 0) x (cat x (rep padeq (- 8 (mod (len x) 8))))))
+(define-fun repad8 ((x BSeq)) BSeq (ite (= (mod (len x) 8) 0) x (cat x (rep str!x3d (- 8 (mod (len x) 8))))))
 (define-fun b32norm ((s BSeq)) BSeq (upper (repad8 (trim s))))
 (define-fun b32ok ((s BSeq)) Bool (stdok (b32norm s)))
 (define-fun b32key ((s BSeq)) BSeq (stddec (b32norm s)))
